@@ -298,6 +298,13 @@ def r4(ctx, facts, cfg):
             all(not g.exists_path([g.entry_node], [p], avoid_nodes=sdp) for p in cpos(f, r"^(std::)?raise$"))
         ctx.ob("C07.R4f", site + ":default-restored-before-raise", ok,
                "every std::raise(sig) is preceded by std::signal(sig, SIG_DFL) for the same signal: the process dies from the original signal", fn=f)
+        # R4l: ... and never earlier than the flush: while the handler is still logging and flushing, the same signal arriving again
+        # (a second kill, Ctrl-C twice, a second faulting thread) must find the handler — which parks it on the single-entry lock —
+        # not the default action, which would end the process with statements still queued
+        ok = bool(sdp) and bool(allflush := cpos(f, r"LoggerImpl<.*>::flush_log$")) and not g.exists_path(sdp, allflush + cpos(f, r"LoggerImpl<.*>::log_statement<"))
+        ctx.ob("C07.R4l", site + ":default-not-restored-before-flush", ok,
+               "std::signal(sig, SIG_DFL) is never followed by the handler's logging or flush: the default action comes back only after "
+               "everything was written", fn=f)
         # single-entry lock and alarm precede logging
         lock = [n for n in f.walk() if (atomic_op(n) or {}).get("kind") == "rmw" and field_name(atomic_op(n)["obj"]) == "lock"]
         lp = npos(f, lock)
